@@ -59,7 +59,7 @@ ASSUMPTIONS = [
 
 # reasons of Spec.Pipe.stageReasons that are exclusion classes of OTHER properties' oracles
 INHERITED = ('filter:', 'sort:', 'proj:')
-SCOPE = ('nospec', 'multiopstage', 'datenorm', 'nondoc')
+SCOPE = ('nospec', 'datenorm', 'nondoc')
 
 
 def new_db(case):
@@ -155,6 +155,49 @@ def first_stage(case):
     return None, None
 
 
+def count_ok(o, lo):
+    """a `$skip` (lo = 0) / `$limit` (lo = 1) argument MongoDB accepts: an integer, or a double
+    without fraction, not below `lo`"""
+    if isinstance(o, bool):
+        return False
+    if isinstance(o, int):
+        return o >= lo
+    if isinstance(o, float):
+        return o.is_integer() and o >= lo
+    return False
+
+
+def mongo_rejects(stage):
+    """the stage is refused whatever the documents: not a one-field document, or a `$limit` /
+    `$skip` / `$count` argument outside the rules"""
+    if not isinstance(stage, dict) or len(stage) != 1:
+        return True
+    (op, o), = stage.items()
+    if op == '$limit':
+        return not count_ok(o, 1)
+    if op == '$skip':
+        return not count_ok(o, 0)
+    if op == '$count':
+        return not (isinstance(o, str) and o and not o.startswith('$') and '.' not in o)
+    return False
+
+
+def rejected_oracle(ctx, case, full, stats):
+    """a pipeline holding a stage MongoDB rejects never answers documents, wherever the stage
+    stands (python only)"""
+    p = case['pipeline']
+    if not isinstance(p, list) or not any(mongo_rejects(st) for st in p):
+        return
+    stats['rejected stage=error'] += 1
+    if not isinstance(full, Exception):
+        oids = wire.Oids()
+        ctx.violation(render(case, kind='a pipeline holding a stage MongoDB rejects (no or several '
+                             'operators, $limit / $skip / $count argument outside the rules) '
+                             'answered documents', rejected_stages=[wire.pretty(st) for st in p
+                                                                    if mongo_rejects(st)],
+                             py=show_safe(full, oids)), rank=60 + len(repr(p)))
+
+
 LOOSE = object()
 KNOWN_DIRECT = {e['id'] for e in common.load_known('C03') if e.get('status') == 'known'}
 
@@ -238,18 +281,28 @@ def direct_oracles(ctx, case, db, stats):
         name = 'sort=find.sort'
         got = agg(coll, [{'$sort': opts}])
         want = attempt(lambda: list(coll.find().sort(list(opts.items()))))
-    elif op in ('$skip', '$limit') and isinstance(opts, int) and not isinstance(opts, bool) \
-            and opts >= 0:
+    elif op in ('$skip', '$limit'):
+        # a non-negative ($limit: positive) integer slices like the cursor does; every other
+        # argument is rejected
         name = 'skip/limit=slice'
         got = agg(coll, [{op: opts}])
-        allv = list(coll.find())
-        want = allv[opts:] if op == '$skip' else allv[:opts]
-        if opts > 0:
-            via = attempt(lambda: list(coll.find().skip(opts) if op == '$skip'
-                                       else coll.find().limit(opts)))
-            if not same(via, want):
-                ctx.violation(render(case, kind='cursor skip/limit disagrees with slicing',
-                                     stage={op: opts}), rank=50)
+        if isinstance(opts, float) and count_ok(opts, 0 if op == '$skip' else 1):
+            # MongoDB takes 2.0 as 2: listed finding `limitdouble`
+            if 'limitdouble' in KNOWN_DIRECT and isinstance(got, Exception):
+                ctx.known_seen['limitdouble'] = ctx.known_seen.get('limitdouble', 0) + 1
+                return
+            opts = int(opts)
+        if count_ok(opts, 0 if op == '$skip' else 1):
+            allv = list(coll.find())
+            want = allv[opts:] if op == '$skip' else allv[:opts]
+            if opts > 0:
+                via = attempt(lambda: list(coll.find().skip(opts) if op == '$skip'
+                                           else coll.find().limit(opts)))
+                if not same(via, want):
+                    ctx.violation(render(case, kind='cursor skip/limit disagrees with slicing',
+                                         stage={op: opts}), rank=50)
+        else:
+            want = Exception('MongoDB rejects this argument')
     elif op == '$count' and isinstance(opts, str) and opts and not opts.startswith('$') \
             and '.' not in opts:
         name = 'count=count_documents'
@@ -546,6 +599,7 @@ def run_cases(ctx, cases, judge, rng, stats, oracles=True):
             judge.zone['unencodable'] += 1
             continue
         if oracles:
+            rejected_oracle(ctx, c, full, stats)
             for orc in (direct_oracles, group_lookup_oracles):
                 try:
                     orc(ctx, c, db, stats)
